@@ -284,10 +284,21 @@ func cmdFanout(args []string) error {
 	enc := json.NewEncoder(w)
 	var mu sync.Mutex
 	var wg sync.WaitGroup
-	sem := make(chan struct{}, 32)
+	// VERIFH_SERIAL: one scenario at a time, each noted in VERIFH_CUR first (the driver's second run after the runtime
+	// aborted the process - a panic in the fan-out's own goroutine cannot be recovered here)
+	serial := os.Getenv("VERIFH_SERIAL") != ""
+	sem := make(chan struct{}, map[bool]int{false: 32, true: 1}[serial])
 	for _, sc := range scs {
 		wg.Add(1)
 		sem <- struct{}{}
+		if p := os.Getenv("VERIFH_CUR"); serial && p != "" {
+			mu.Lock()
+			w.Flush()
+			mu.Unlock()
+			b, _ := json.Marshal(fanLine{Ev: "fanout", ID: sc.ID, Cap: sc.Cap, Fair: sc.Fair, Ops: []fanOpRec{}, Recv: map[string][]int{},
+				AtFlush: []string{}, Sentinels: []int{}, Crash: "the process was taken down"})
+			os.WriteFile(p, b, 0o666)
+		}
 		go func(sc fanScenario) {
 			defer wg.Done()
 			l := runFanScenario(sc)
